@@ -81,6 +81,7 @@ type Plan struct {
 	Cfg     *CfgSpec         `json:"cfg"`
 	Order   int              `json:"order"`
 	Ops     []Op             `json:"ops"`
+	Conc    []Op             `json:"conc,omitempty"` // C15: requests issued concurrently after Ops
 }
 
 // ---------------------------------------------------------------------------
@@ -107,20 +108,20 @@ type rPod struct {
 type rCtr struct {
 	spec       *CtrSpec
 	pod        *rPod
-	state      string   // creating created running stopped removed failed
-	init       told     // what the runtime itself sent in CreateContainer
-	t          told     // told view
-	rv         told     // what the runtime actually enforces: kubelet values, overwritten by UpdateContainer, with the plugin\'s answers on top
-	cur        *CtrSpec // current resources (after updates)
-	known      bool     // the plugin has seen a CreateContainer for it
-	stopSeen   bool     // the plugin has seen StopContainer (or a sync listing it exited)
-	lostGrant  string   // why an active container may hold no grant ("failed-update")
-	updated    bool     // its resources were changed by UpdateContainer (the balloons policy ignores updates)
-	cfgAtAlloc *CfgSpec // configuration in force when last (re)allocated
-	reqUnsure  bool     // a failed UpdateContainer left the plugin and the runtime with different ideas of the request
-	resAtAlloc bool     // reserved-class under the configuration in force when last (re)allocated
-	restarts int             // plugin restarts the container has lived through
-	toldHist map[string]bool // earlier told cpus|mems values (F7 classification)
+	state      string          // creating created running stopped removed failed
+	init       told            // what the runtime itself sent in CreateContainer
+	t          told            // told view
+	rv         told            // what the runtime actually enforces: kubelet values, overwritten by UpdateContainer, with the plugin\'s answers on top
+	cur        *CtrSpec        // current resources (after updates)
+	known      bool            // the plugin has seen a CreateContainer for it
+	stopSeen   bool            // the plugin has seen StopContainer (or a sync listing it exited)
+	lostGrant  string          // why an active container may hold no grant ("failed-update")
+	updated    bool            // its resources were changed by UpdateContainer (the balloons policy ignores updates)
+	cfgAtAlloc *CfgSpec        // configuration in force when last (re)allocated
+	reqUnsure  bool            // a failed UpdateContainer left the plugin and the runtime with different ideas of the request
+	resAtAlloc bool            // reserved-class under the configuration in force when last (re)allocated
+	restarts   int             // plugin restarts the container has lived through
+	toldHist   map[string]bool // earlier told cpus|mems values (F7 classification)
 }
 
 type runtimeModel struct {
